@@ -7,6 +7,7 @@ from fractions import Fraction
 import indic
 from indic import dirs_w, set_f, close
 from common import wf, bits2f
+import plat
 from plat import mk_problem, mk_sol, call
 
 from platypus import indicators as I
@@ -103,6 +104,7 @@ def run(ctx, drv):
                 for s in worse:
                     k = rng.randrange(nobjs)
                     s.objectives[k] = s.objectives[k] + (-0.25 if dirs[k] else 0.25)
+                    plat.changed_on_purpose(s)
                 e1 = call(lambda: I.EpsilonIndicator(fresh(ref)).calculate(fresh(aset)))
                 e2 = call(lambda: I.EpsilonIndicator(fresh(ref)).calculate(worse))
                 if not isinstance(e1, str) and not isinstance(e2, str) and e2 < e1 - 1e-12:
